@@ -147,4 +147,30 @@ def gen_date_tables():
     return out
 
 
-FAMILIES = {'DateTables': gen_date_tables}
+def gen_datetime_consts():
+    src = read('src/datetime/mod.rs')
+    items = find_items(src)
+    if 'UNIX_EPOCH_DAY' not in items:
+        raise TranslateError('datetime/mod.rs: UNIX_EPOCH_DAY not found')
+    out = HEADER % 'src/datetime/mod.rs, src/offset/fixed.rs'
+    out += defn('UNIX_EPOCH_DAY', Evaluator({}).eval(items['UNIX_EPOCH_DAY'][0][1]))
+    body = fn_body(src, 'from_timestamp')
+    ks = re.findall(r'(?:div_euclid|rem_euclid)\(([\d_]+)\)', body)
+    if len(ks) != 2 or ks[0] != ks[1]:
+        raise TranslateError('from_timestamp: seconds-per-day constant not recognised')
+    out += defn('DT_SECS_PER_DAY', int(ks[0].replace('_', '')))
+    fsrc = read('src/offset/fixed.rs')
+    body = fn_body(fsrc, 'east_opt')
+    m = re.search(r'-([\d_]+) < secs && secs < ([\d_]+)', body)
+    body2 = fn_body(fsrc, 'west_opt')
+    m2 = re.search(r'-([\d_]+) < secs && secs < ([\d_]+)', body2)
+    if not m or not m2:
+        raise TranslateError('fixed.rs: offset bounds not recognised')
+    out += defn('FO_EAST_LO', -int(m.group(1).replace('_', '')))
+    out += defn('FO_EAST_HI', int(m.group(2).replace('_', '')))
+    out += defn('FO_WEST_LO', -int(m2.group(1).replace('_', '')))
+    out += defn('FO_WEST_HI', int(m2.group(2).replace('_', '')))
+    return out
+
+
+FAMILIES = {'DateTables': gen_date_tables, 'DateTimeConsts': gen_datetime_consts}
